@@ -70,7 +70,7 @@ impl CfgSer {
             strategy: if self.strategy == "pct" { Strategy::Pct { depth: self.pct_depth, est_len: self.pct_len } } else { Strategy::Random { sticky: self.sticky } },
             step_cap: self.step_cap,
             spin_limit: self.spin_limit,
-            trace: false,
+            trace: std::env::var("VSIM_TRACE").is_ok(),
         }
     }
     pub fn base() -> CfgSer {
@@ -291,6 +291,12 @@ pub fn worker(h: &dyn Harness, verif_seed: u64, from: u64, to: u64, only_mode: O
         let (rs, mode, deciding, plan, cfg) = derive_run(h, verif_seed, index, only_mode);
         let res = h.execute(&plan, &cfg, Decisions::Seeded(rs));
         let rep = &res.report;
+        if std::env::var("VSIM_TRACE").is_ok() {
+            eprintln!("=== run {index}");
+            for l in &rep.log_tail {
+                eprintln!("{l}");
+            }
+        }
         agg.runs += 1;
         agg.steps += rep.steps;
         agg.switches += rep.switches;
@@ -522,8 +528,17 @@ fn self_exe() -> std::path::PathBuf {
     std::env::current_exe().unwrap()
 }
 
-fn spawn_worker(h: &str, verif_seed: u64, from: u64, to: u64, mode: Option<&str>) -> std::process::Child {
+pub fn pin_to_cpu(cpu: usize) {
+    unsafe {
+        let mut set: libc::cpu_set_t = core::mem::zeroed();
+        libc::CPU_SET(cpu, &mut set);
+        libc::sched_setaffinity(0, core::mem::size_of::<libc::cpu_set_t>(), &set);
+    }
+}
+
+fn spawn_worker(h: &str, verif_seed: u64, from: u64, to: u64, mode: Option<&str>, cpu: usize) -> std::process::Child {
     let mut c = std::process::Command::new(self_exe());
+    c.env("VSIM_CPU", cpu.to_string());
     c.arg("--worker").arg(h).arg(verif_seed.to_string()).arg(from.to_string()).arg(to.to_string());
     if let Some(m) = mode {
         c.arg(m);
@@ -539,12 +554,15 @@ pub fn drive_harness(h: &dyn Harness, verif_seed: u64, total: u64, workers: usiz
     let mut viols: Vec<ReplayFile> = Vec::new();
     let mut errors = Vec::new();
     let mut next = 0u64;
-    let mut running: Vec<(std::process::Child, u64, u64, std::thread::JoinHandle<(Vec<String>, Vec<String>)>)> = Vec::new();
+    let mut running: Vec<(std::process::Child, u64, u64, std::thread::JoinHandle<(Vec<String>, Vec<String>)>, usize)> = Vec::new();
+    let ncpu = std::thread::available_parallelism().map(|n| n.get()).unwrap_or(1);
+    let mut free_slots: Vec<usize> = (0..workers).rev().collect();
     let mut stop = false;
     loop {
         while !stop && running.len() < workers && next < total {
             let to = (next + batch).min(total);
-            let mut ch = spawn_worker(h.name(), verif_seed, next, to, mode);
+            let slot = free_slots.pop().unwrap_or(0);
+            let mut ch = spawn_worker(h.name(), verif_seed, next, to, mode, slot % ncpu);
             let so = ch.stdout.take().unwrap();
             let jh = std::thread::spawn(move || {
                 let mut a = Vec::new();
@@ -562,14 +580,15 @@ pub fn drive_harness(h: &dyn Harness, verif_seed: u64, total: u64, workers: usiz
                 }
                 (a, v)
             });
-            running.push((ch, next, to, jh));
+            running.push((ch, next, to, jh, slot));
             next = to;
         }
         if running.is_empty() {
             break;
         }
         // wait for the oldest
-        let (mut ch, from, to, jh) = running.remove(0);
+        let (mut ch, from, to, jh, slot) = running.remove(0);
+        free_slots.push(slot);
         let st = ch.wait();
         let (a, v) = jh.join().unwrap();
         let ok = st.as_ref().map(|s| s.success()).unwrap_or(false);
@@ -817,5 +836,8 @@ pub fn write_evidence(spec: &CheckSpec, tier: &str, verif_seed: u64, outcomes: &
 }
 
 pub fn silence_panics() {
+    if std::env::var("VSIM_PANIC").is_ok() {
+        return;
+    }
     std::panic::set_hook(Box::new(|_| {}));
 }
